@@ -8,7 +8,7 @@ from ..common import pick, hx, key_family, rand_key, run_cases, sk, unhx
 
 ID = "C12"
 LEVEL = "exploration"
-TECHNIQUE = "differential state monitor: two real sketches of equal configuration, one driven through the compound entry point, one through the loop of primitive calls defined by the statement; whole public state compared after every operation (log sketches under identical random draws)"
+TECHNIQUE = "differential state monitor: two real sketches of equal configuration, one driven through the compound entry point, one through the loop of primitive calls defined by the statement; whole public state compared after every operation (log sketches under identical random draws); one case in four with the batch side in shared memory"
 RULE = ("case = (sketch class and shape, list of compound operations); after each operation the left sketch (compound call) and the "
         "right sketch (loop of add(key, v) / unit adds / per-element add_ngram as the statement defines) must have identical cms / "
         "registers / lhh, lhh_count, key_lens / n_added_records (and rand_ptr, rand_nums for log types); non-trivial = at least two "
@@ -129,7 +129,12 @@ def full_state(sketch, kind):
 def run_case(case, ctx, mon):
     cfg = case["cfg"]
     kind = cfg["kind"]
-    L = state.make(cfg)
+    # one case in four: the sketch that takes the batch entry points lives in shared memory, the one that takes the loop of
+    # primitives does not (where the arrays live must not change what an entry point does; round 8, seed C12-N)
+    in_shm = case["draw_seed"] % 4 == 1
+    L = state.make(cfg, shared_memory=in_shm)
+    if in_shm:
+        mon.count("cases_with_the_batch_side_in_shared_memory")
     R = state.make(cfg)
     is_log = kind in ("log16", "log8")
     if is_log:
@@ -292,11 +297,13 @@ def run_any(case, ctx, mon):
 
 
 def run(ctx, mon):
+    state.fast_del(True)  # shared-memory sketches are dropped without the library's 0.25 s pause
     state.numba_seed(1)
     run_cases(ctx, mon, gen_cases(ctx), run_any)
 
 
 def replay(case, ctx, mon):
+    state.fast_del(True)
     run_any(case, ctx, mon)
 
 
